@@ -1838,6 +1838,8 @@ class unyt_array(np.ndarray):
             ):
                 # the start value takes part like any other element:
                 # express it in the array's unit, or refuse
+                if initial.units.dimensions != u.dimensions:
+                    raise UnitOperationError(ufunc, u, initial.units)
                 kwargs["initial"] = initial.to_value(u)
             # get unit of result first: a refused unit must not leave numbers in out
             if ufunc in (multiply, divide) and method == "reduce":
